@@ -74,8 +74,9 @@ class EvalMixin:
                 av = self.alias_values(st)
                 if name in av:
                     return av[name]
+                return SV("val", z3.Const("unassigned!" + name, Val))     # the local has not been assigned on this path
             if name == "me":
-                return SV("int", self.me)
+                return SV("int", self.me_of(st))
             if name == "LASTKW":
                 return SV("sdict", (self.harr(st, "#LASTKWDOM"), self.harr(st, "#LASTKWMAP")))
             if name == "UNSET":
@@ -662,6 +663,8 @@ class EvalMixin:
             return [Res(st, self.module_global(st, obj.t, attr))]
         if k == "ext":
             return [Res(st, SV("ext", obj.t + "." + attr))]
+        if k == "inst" and obj.h == "Context" and attr == "run":
+            return [Res(st, SV("meth", (obj, attr)))]
         if k == "inst" and obj.h == "Lock" and attr in ("acquire", "release", "locked"):
             return [Res(st, SV("meth", (obj, attr)))]
         if k == "inst":
